@@ -15,6 +15,8 @@ def _norm(t):
     :return: a scalar
     """
 
+    if t.batch:
+        raise ValueError("Batched tensors are not supported.")
     t = t.clone()
     t.orthogonalize(0)
     core = t.cores[0]
